@@ -43,6 +43,21 @@ pub fn execute_sequences(scratch: &mut DecoderScratch) -> Result<(), ExecuteSequ
         if actual_offset == 0 {
             return Err(ExecuteSequencesError::ZeroOffset);
         }
+        #[cfg(killingspark_zstd_rs_verif)]
+        crate::verif::emit(
+            crate::verif::SEQ,
+            "seq",
+            &[
+                u64::from(seq.ll),
+                u64::from(seq.ml),
+                u64::from(seq.of),
+                u64::from(actual_offset),
+                u64::from(scratch.offset_hist[0]),
+                u64::from(scratch.offset_hist[1]),
+                u64::from(scratch.offset_hist[2]),
+                scratch.buffer.len() as u64,
+            ],
+        );
         if seq.ml > 0 {
             scratch
                 .buffer
